@@ -325,7 +325,7 @@ func cmdPoolCheck(a Args) {
 		fmt.Printf("poolcheck: dir=%s sites=%d functions=%d violations=%d\n", dir, rep.Histories, rep.Steps, len(rep.Violations))
 	}()
 	fset := token.NewFileSet()
-	pkgs, err := parser.ParseDir(fset, dir, func(fi os.FileInfo) bool { return !strings.HasSuffix(fi.Name(), "_test.go") }, 0)
+	pkgs, err := parser.ParseDir(fset, dir, func(fi os.FileInfo) bool { return !strings.HasSuffix(fi.Name(), "_test.go") && !strings.HasPrefix(fi.Name(), "verif_hooks") }, 0)
 	if err != nil {
 		panic(err)
 	}
@@ -511,6 +511,40 @@ func cmdPoolCheck(a Args) {
 				rep.Violate(pc.nsites, where, 0, "C16: pooled object used after it was returned to the pool: "+b, line)
 			}
 		}
+	}
+
+	// 4b. a function may only return to the pool an object it obtained itself (from a getter); putting
+	// an object received as a parameter (or any other variable) makes it end up in the pool twice, once
+	// from here and once from its owner, after which two users share it
+	for _, fd := range funcs {
+		if _, isPutter := pc.putters[fd.Name.Name]; isPutter {
+			continue
+		}
+		own := map[string]bool{}
+		for _, st := range pc.sitesIn(fd) {
+			own[st.v.Name] = true
+		}
+		ast.Inspect(fd.Body, func(n ast.Node) bool {
+			c, ok := n.(*ast.CallExpr)
+			if !ok {
+				return true
+			}
+			if _, isPut := pc.putters[callName(c)]; !isPut || len(c.Args) != 1 {
+				return true
+			}
+			id, ok := c.Args[0].(*ast.Ident)
+			if !ok {
+				return true
+			}
+			rep.Event("put_calls_checked")
+			if !own[id.Name] {
+				pc.nsites++
+				rep.Violate(pc.nsites, pc.pos(c.Pos()), 0,
+					"C16: a pooled object is returned to the pool by a function that did not obtain it (it will be put twice and then shared): "+
+						fd.Name.Name+" puts `"+id.Name+"` at "+pc.pos(c.Pos()), "")
+			}
+			return true
+		})
 	}
 
 	// 5. pooled structs: fields read by methods must be set on get or cleared on put
